@@ -33,6 +33,8 @@ def gen_dir(rng, good, damaged, tier):
                 entries.append({'name': name, 'kind': 'file', 'hex': src.encode().hex(), 'fault': 'damaged' if is_go else None, 'src': src})
         else:
             src = rng.choice(good).replace('package p', 'package ' + pkg, 1)
+            if rng.random() < 0.35: src = src.rstrip('\n') + rng.choice(['\n\n// end of file\n', '\n// trailing é\n', '\n\n/* closing\n   remark */\n', '\n//x'])     # state a parser could carry into the next file
+            if rng.random() < 0.15: src = '// leading remark\n\n' + src
             if rng.random() < 0.25: src = BOM + src
             if rng.random() < 0.05: src = BOM + BOM + src      # only ONE BOM is stripped: this one is a damaged file
             entries.append({'name': name, 'kind': 'file', 'hex': src.encode().hex(), 'src': src, 'pkg': pkg,
